@@ -502,11 +502,25 @@ func (p *parser) parsePermissionExpression() (child ast.Child) {
 
 func (p *parser) parseTupleToSubjectSet(relation item) (rewrite ast.Child) {
 	var (
-		subjectSetRel string
-		arg, verb     item
+		subjectSetRel     string
+		subjectSetRelItem item
+		arg, verb         item
 	)
 	if !p.match("(") {
 		return nil
+	}
+	// matchSubjectSetRel matches the property access to the relation in the
+	// lambda body and remembers its token, so that type errors can point at it.
+	matchSubjectSetRel := func() bool {
+		if !p.matchPropertyAccess(&subjectSetRelItem) {
+			return false
+		}
+		if subjectSetRelItem.Typ != itemIdentifier && subjectSetRelItem.Typ != itemStringLiteral {
+			p.addFatal(subjectSetRelItem, "expected identifier, got %s", subjectSetRelItem.Typ)
+			return false
+		}
+		subjectSetRel = subjectSetRelItem.Val
+		return true
 	}
 
 	switch {
@@ -519,7 +533,7 @@ func (p *parser) parseTupleToSubjectSet(relation item) (rewrite ast.Child) {
 
 	switch verb.Val {
 	case "related":
-		if !p.matchPropertyAccess(&subjectSetRel) {
+		if !matchSubjectSetRel() {
 			return nil
 		}
 		p.match(
@@ -527,15 +541,15 @@ func (p *parser) parseTupleToSubjectSet(relation item) (rewrite ast.Child) {
 			optional(","), ")", optional(","), ")",
 		)
 		p.addCheck(checkAllRelationsTypesHaveRelation(
-			&p.namespace, relation, subjectSetRel,
+			&p.namespace, relation, subjectSetRelItem,
 		))
 	case "permits":
-		if !p.matchPropertyAccess(&subjectSetRel) {
+		if !matchSubjectSetRel() {
 			return nil
 		}
 		p.match("(", "ctx", ")", optional(","), ")")
 		p.addCheck(checkAllRelationsTypesHaveRelation(
-			&p.namespace, relation, subjectSetRel,
+			&p.namespace, relation, subjectSetRelItem,
 		))
 	default:
 		p.addFatal(verb, "expected 'related' or 'permits', got %q", verb)
